@@ -27,6 +27,8 @@ pub struct PoolCfg {
     pub perturb: Option<u64>,
     /// perturbation strength: max sleep in microseconds at a schedule point
     pub max_sleep_us: u64,
+    /// `max_connections` handed to the pool (documented as a per-worker capacity)
+    pub max_conn: usize,
 }
 
 #[derive(Debug, Default)]
@@ -157,21 +159,21 @@ pub fn run_pool(kind: PoolKind, frames: &[Vec<u8>], cfg: &PoolCfg, filter: Optio
         PoolKind::Tcp => {
             huginn_net_tcp::verif_hooks::set_sched_hook(Some(Arc::new(hook)));
             let (tx, rx) = mpsc::channel();
-            let pool = huginn_net_tcp::WorkerPool::new(cfg.workers, cfg.queue, cfg.batch, cfg.timeout_ms, tx, Some(crate::props::c15::arc_db()), 1000, filter.map(c14::tcp_cfg)).map_err(|e| e.to_string())?;
+            let pool = huginn_net_tcp::WorkerPool::new(cfg.workers, cfg.queue, cfg.batch, cfg.timeout_ms, tx, Some(crate::props::c15::arc_db()), cfg.max_conn, filter.map(c14::tcp_cfg)).map_err(|e| e.to_string())?;
             drive_pool!(pool, rx, |r: &huginn_net_tcp::TcpAnalysisResult| drive::tcp_keyed(r));
             huginn_net_tcp::verif_hooks::set_sched_hook(None);
         }
         PoolKind::Http => {
             huginn_net_http::verif_hooks::set_sched_hook(Some(Arc::new(hook)));
             let (tx, rx) = mpsc::channel();
-            let pool = huginn_net_http::WorkerPool::new(cfg.workers, cfg.queue, cfg.batch, cfg.timeout_ms, tx, Some(crate::props::c15::arc_db()), 1000, filter.map(c14::http_cfg)).map_err(|e| e.to_string())?;
+            let pool = huginn_net_http::WorkerPool::new(cfg.workers, cfg.queue, cfg.batch, cfg.timeout_ms, tx, Some(crate::props::c15::arc_db()), cfg.max_conn, filter.map(c14::http_cfg)).map_err(|e| e.to_string())?;
             drive_pool!(pool, rx, |r: &huginn_net_http::HttpAnalysisResult| drive::http_keyed(r));
             huginn_net_http::verif_hooks::set_sched_hook(None);
         }
         PoolKind::Tls => {
             huginn_net_tls::verif_hooks::set_sched_hook(Some(Arc::new(hook)));
             let (tx, rx) = mpsc::channel();
-            let pool = huginn_net_tls::WorkerPool::new(cfg.workers, cfg.queue, cfg.batch, cfg.timeout_ms, tx, 1000, filter.map(c14::tls_cfg)).map_err(|e| e.to_string())?;
+            let pool = huginn_net_tls::WorkerPool::new(cfg.workers, cfg.queue, cfg.batch, cfg.timeout_ms, tx, cfg.max_conn, filter.map(c14::tls_cfg)).map_err(|e| e.to_string())?;
             drive_pool!(pool, rx, |r: &huginn_net_tls::TlsClientOutput| drive::tls_keyed(r));
             huginn_net_tls::verif_hooks::set_sched_hook(None);
         }
